@@ -52,7 +52,7 @@ type txnVariant struct {
 func runC04Enum(src sim.Source, o Opts, res *Result) {
 	cfg := world.DrawCfg(src)
 	pc := world.PoolCfg{Size: 3 + src.Intn("poolsize", 6), MaxSegs: 1 + src.Intn("maxsegs", 4), Hosts: src.Intn("hosts", 3) == 2,
-		WildHeavy: sim.Bool(src, "wildheavy"), TSlash: src.Intn("tslash", 4)}
+		WildHeavy: sim.Bool(src, "wildheavy"), TSlash: src.Intn("tslash", 4), Odd: src.Intn("oddbytes", 5) == 4}
 	pool := world.GenPool(src, pc)
 	if len(pool) == 0 {
 		return
